@@ -292,8 +292,11 @@ def _check_restore_tz(ctx, run, f):
             n += 1
             a = ctx.analysis(f)
             st = a.state_before(i)
+            from .. import atoms as _atoms
+            pname = f.params[0]["name"]
             ok = _str_arg(f, e["c"][0]) == "TZ" and st is not None and any(
-                k[0] == "fact" and k[2] == "T" and "old_tz" in ex.pretty(f, k[1]) and "==" in ex.pretty(f, k[1]) for k in st)
+                a_.rel == "==" and a_.R is not None and a_.R.const == 0 and pname in a_.L.locals and not a_.L.calls
+                for a_ in _atoms.atoms_at(f, i))
             key = "RF-DEP:restore_tz:unsetenv-guard"
             if ok:
                 run.holds("RF-DEP", key, "unsetenv (\"TZ\") only under NULL == *old_tz (TZ was unset before the change)", ex.loc(f, i))
@@ -438,7 +441,17 @@ def _offset_applied(ctx, run):
         pos_ok = any(adds(f, ev) for ev in flow.events(f, blk_call) if flow.elem_pos(f)[ev][1] < flow.elem_pos(f)[i][1])
         reach = flow.reach_from(f, f.entry, avoid=hit)
         key = "RF-CORR:valid_pil_lto_to_time:offset-applied-before-year-decision"
-        if pos_ok or blk_call not in reach:
+        flag_ok = False
+        if not pos_ok and blk_call in reach:
+            # the addition may report success in a flag (`ok = 0/1` with the single `1` next to the addition) that is
+            # tested before the call: finding the flag set means the addition was executed
+            for src_, lab_, cond_ in flow.dominating_edges(f, blk_call):
+                if cond_ is None or lab_ not in ("T", "F"):
+                    continue
+                tb = atoms._const_flag_set_block(f, cond_, lab_ == "T", src_)
+                if tb is not None and (tb in hit or any(flow.dominates(f, h, tb) for h in hit)):
+                    flag_ok = True
+        if pos_ok or blk_call not in reach or flag_ok:
             run.holds("RF-CORR", key, "every path to %s () passes `%s += %s`" % (f.exprs[i]["callee"], start, east), ex.loc(f, i))
         else:
             run.violation("RF-CORR", key, "a path reaches %s () without adding the UTC offset to the reference time: the month "
@@ -447,6 +460,30 @@ def _offset_applied(ctx, run):
                           witness={"function": f.name})
     rets = [i for b, i in flow.all_events(f) if f.exprs[i]["k"] == "ret" and f.exprs[i].get("c")
             and east in atoms.Operand(f, f.exprs[i]["c"][0]).locals]
+    if not rets:
+        # `start -= seconds_east; ... return start;`: the returned local was last changed by the offset
+        for b, i in flow.all_events(f):
+            e = f.exprs[i]
+            if e["k"] != "ret" or not e.get("c"):
+                continue
+            rv = f.exprs[ex.skip(f, e["c"][0])]
+            if rv["k"] != "ref":
+                continue
+            for b2, j in flow.all_events(f):
+                for lhs, var, op, rhs in flow.stores(f, j):
+                    if lhs is None or rhs is None or op not in ("-=", "="):
+                        continue
+                    le = f.exprs[ex.skip(f, lhs)]
+                    if le["k"] == "ref" and le.get("name") == rv["name"] and east in atoms.Operand(f, rhs).locals \
+                            and b in flow.reach_from(f, b2):
+                        # and no later plain reassignment of the local on the way
+                        later = [j2 for b3, j2 in flow.all_events(f) for l3, v3, o3, r3 in flow.stores(f, j2)
+                                 if l3 is not None and f.exprs[ex.skip(f, l3)]["k"] == "ref"
+                                 and f.exprs[ex.skip(f, l3)].get("name") == rv["name"] and o3 == "="
+                                 and r3 is not None and east not in atoms.Operand(f, r3).locals
+                                 and b3 in flow.reach_from(f, b2) and b3 != b2 and b in flow.reach_from(f, b3)]
+                        if not later:
+                            rets.append(i)
     key = "RF-DEP:valid_pil_lto_to_time:offset-removed-from-result"
     if rets:
         run.holds("RF-DEP", key, "the successful return takes %s out of the result again" % east, ex.loc(f, rets[0]))
